@@ -63,6 +63,11 @@ func runC17(c *Ctx) {
 		keys = append(keys, c17key{name: fmt.Sprintf("rsa-%d", bits), signer: k, pub: &k.PublicKey, family: "rsa", rsaBits: bits})
 		keys = append(keys, c17key{name: fmt.Sprintf("foreign-signer-with-rsa-%d-public", bits), signer: foreignSigner{&k.PublicKey}, pub: nil, family: "rsa", rsaBits: bits})
 	}
+	// valid 2048-bit keys with unusual (but legal) public exponents: adequacy is a matter of the modulus only
+	for _, e := range []int{3, 5, 17, 257, 65537, 1<<31 - 1} {
+		k := testkeys.RSAWithExponent(e)
+		keys = append(keys, c17key{name: fmt.Sprintf("rsa-2048-e=%d", e), signer: k, pub: &k.PublicKey, family: "rsa", rsaBits: 2048})
+	}
 	for _, cv := range []elliptic.Curve{elliptic.P224(), elliptic.P256(), elliptic.P384(), elliptic.P521()} {
 		k := gen.ECKey(cv, r)
 		ok := cv != elliptic.P224()
@@ -164,6 +169,10 @@ func runC17(c *Ctx) {
 		for _, bits := range []int{2048, 2049, 2055, 3072} {
 			k := testkeys.RSA(bits)
 			pairs = append(pairs, pairing{a, k, &k.PublicKey, fmt.Sprintf("rsa-%d", bits)})
+		}
+		for _, e := range []int{3, 1<<31 - 1} {
+			k := testkeys.RSAWithExponent(e)
+			pairs = append(pairs, pairing{a, k, &k.PublicKey, fmt.Sprintf("rsa-2048-e=%d", e)})
 		}
 	}
 	for _, a := range []cose.Algorithm{cose.AlgorithmES256, cose.AlgorithmES384, cose.AlgorithmES512} {
